@@ -484,10 +484,13 @@ pub fn check_numeral_text(with: &Dict, without: &Dict, text: &str, standalone: O
     // well-formed numerals are joined into one token with the expected rendering: every maximal
     // run of numeral characters of the text is examined
     let _ = standalone;
+    // (numeral characters inside a longer dictionary word that is no numeral are shadowed by it:
+    // a plugin-free token that also contains other characters)
+    let shadowed = |b: usize| -> bool { to.iter().any(|p| p.begin <= b && b < p.end && p.surface.chars().any(|c| ntok(c).is_none())) };
     let mut runs: Vec<(usize, usize)> = Vec::new();
     let mut cur: Option<usize> = None;
     for (b, c) in text.char_indices() {
-        if ntok(c).is_some() {
+        if ntok(c).is_some() && !shadowed(b) {
             if cur.is_none() {
                 cur = Some(b);
             }
@@ -548,6 +551,8 @@ impl Space for NumSpace {
 pub fn numeral_spec(name: &str, plugin: bool) -> WorldSpec {
     let mut s = spec_min(name);
     s.system.push(Row::new("x", 1, 1, 3000, P_NOUN));
+    // a word that begins and ends with a digit but is no numeral
+    s.system.push(Row::new("1x1", 1, 1, -9000, P_NOUN));
     if plugin {
         s.plugins["pathRewritePlugin"] = json!([join_numeric(true)]);
     }
